@@ -1,6 +1,7 @@
 import Ekit.Props.C04
 import Ekit.Props.C04Rev
 import Ekit.Props.C04Ring
+import Ekit.Props.C04LL
 open Ekit.Lists
 #print axioms c04_calCapacity_matches_source
 #print axioms c04_arrayList_step_refines
@@ -29,3 +30,9 @@ open Ekit.Lists
 -- review additions: the pointer-level linked list (Ekit/Props/C04Ring.lean)
 #print axioms Ekit.Lists.Ring.c04_ring_step_refines
 #print axioms Ekit.Lists.Ring.c04_ring_run_refines
+-- the regenerated linked list (Ekit/Props/C04LL.lean): the MiniGo interpreter running the translated list/linked_list.go
+#print axioms Ekit.MiniGo.LL.Refine.c04_ll_new
+#print axioms Ekit.MiniGo.LL.Refine.c04_ll_step_refines
+#print axioms Ekit.MiniGo.LL.Refine.c04_ll_run_refines
+#print axioms Ekit.MiniGo.LL.Refine.step_sim
+#print axioms Ekit.MiniGo.LL.Refine.new_sim
